@@ -5,6 +5,7 @@ package pipes
 import (
 	"bytes"
 	"fmt"
+	"hash/fnv"
 	"io"
 	"strings"
 
@@ -68,12 +69,14 @@ func (p pipeSc) scenario() *sched.Scenario {
 			}
 			writer := func(chunks []string) func() {
 				return func() {
-					for _, c := range chunks {
+					for ci, c := range chunks {
+						vsched.OpBoundary(uint64(ci) + 1)
 						n, err := s.Write([]byte(c))
 						if err != nil || n != len(c) {
 							o.writeErrs = append(o.writeErrs, fmt.Sprintf("Write(%q)=%d,%v", c, n, err))
 						}
 					}
+					vsched.OpBoundary(1000)
 					s.Close()
 				}
 			}
@@ -110,6 +113,7 @@ func (p pipeSc) scenario() *sched.Scenario {
 					size := map[string]int{"read1": 1, "read2": 2, "read64": 64}[p.reader]
 					buf := make([]byte, size)
 					for {
+						vsched.OpBoundary(2000) // everything the reader carries between calls is in o.read (part of the dump)
 						n, err := s.Read(buf)
 						o.read.Write(buf[:n])
 						if err == io.EOF {
@@ -128,6 +132,7 @@ func (p pipeSc) scenario() *sched.Scenario {
 			if p.stats {
 				vsched.GoNamed("stats", func() {
 					for i := 0; i < 2; i++ {
+						vsched.OpBoundary(3000 + uint64(i))
 						w, r := s.Stats()
 						o.statsSeen = append(o.statsSeen, [2]uint64{w, r})
 					}
@@ -140,7 +145,17 @@ func (p pipeSc) scenario() *sched.Scenario {
 			}
 			return p.check(o, e)
 		}
-		return &sched.Instance{Body: body, Finish: finish}
+		dump := func() uint64 {
+			if s == nil {
+				return 0
+			}
+			// the harness-side observations are part of the state too (what has been read so far)
+			h := fnv.New64a()
+			h.Write(o.read.Bytes())
+			fmt.Fprint(h, o.statsSeen, o.readEvts, o.writeErrs)
+			return streams.VerifDump(s) ^ h.Sum64()
+		}
+		return &sched.Instance{Body: body, Finish: finish, Dump: dump}
 	}}
 }
 
@@ -292,11 +307,22 @@ func init() {
 		ID: "C01", Engine: "E1",
 		Rule: "each driver (writers with fixed chunk lists, one reader of a given kind, optional Stats sampler, tiny back-pressure limit) is run on a fresh streams.Stdin under the controlled scheduler; ALL interleavings with at most B preemptions (switches away from a runnable thread, offered at every lock/unlock/spawn point) are enumerated by stateless DFS; evaluations = complete executions; non-trivial = executions containing at least one preemption (the default run-to-completion schedules are the trivial ones); states = executions, transitions = scheduling points",
 		Run: func(c *vlib.Ctx) {
-			b := 3
-			if !c.Quick() {
-				b = 4
+			if c.Quick() {
+				sched.RunAll(c, c01Scenarios(true), 3)
+				return
 			}
-			sched.RunAll(c, c01Scenarios(c.Quick()), b)
+			// thorough: (a) unbounded preemptions — reachable-state search with state-hash pruning — for
+			// every single-writer driver (the product space of two-writer drivers is too large to finish);
+			// (b) every driver with preemption bound 3
+			var single []*sched.Scenario
+			all := c01Scenarios(false)
+			for _, sc := range all {
+				if !strings.Contains(sc.Name, "]+[") {
+					single = append(single, sc)
+				}
+			}
+			sched.RunAllStates(c, single)
+			sched.RunAllByScenario(c, all, 3)
 		},
 		Replay:      func(c *vlib.Ctx, w string) { sched.Replay(c, append(c01Scenarios(true), c01Scenarios(false)...), w) },
 		Assumptions: []string{"scheduling points = every sync.Mutex/RWMutex/WaitGroup/channel/Sleep/go operation of the murex module (source overlay); atomics and plain memory accesses are not scheduling points (C32 covers unsynchronised accesses)", "behaviour after ForceClose and mixing Read with ReadAll on one stream are not asserted (statement silent)", "back-pressure limit set to 2 or 4 bytes through the package variable streams.DefaultMaxBufferSize: same code path as the 1 MiB production limit"},
